@@ -405,10 +405,18 @@ func (ex *Exec) abstractCall(v ssa.Value, why string) {
 }
 
 func (ex *Exec) setResults(v ssa.Value, sig *types.Signature) []TV {
-	if v == nil {
-		return nil
-	}
 	res := sig.Results()
+	if v == nil {
+		// results are discarded by the caller (deferred call, go statement) but the
+		// callee's postconditions still relate them to the state
+		var out []TV
+		for i := 0; i < res.Len(); i++ {
+			t := ex.vc.fresh("discarded.ret", ex.vc.sortOf(res.At(i).Type()))
+			ex.vc.wf(ex.cur.guard, t, res.At(i).Type(), ex.cur.heap.alloc)
+			out = append(out, TV{T: t, Ty: res.At(i).Type()})
+		}
+		return out
+	}
 	var out []TV
 	switch res.Len() {
 	case 0:
